@@ -20,6 +20,17 @@ pub fn beat(slot: usize, id: usize) {
 pub fn idle(slot: usize) {
     CUR[slot % SLOTS].store(-1, Ordering::Relaxed);
 }
+/// CPU time this process has consumed so far, in milliseconds (utime + stime of /proc/self/stat; 0 if unreadable)
+fn cpu_ms() -> u64 {
+    let Ok(s) = std::fs::read_to_string("/proc/self/stat") else { return 0 };
+    // the command name (field 2) may contain spaces: count fields after the closing parenthesis
+    let Some(rest) = s.rsplit_once(')').map(|x| x.1) else { return 0 };
+    let f: Vec<&str> = rest.split_whitespace().collect();
+    // rest starts at field 3 (state): utime is field 14, stime field 15
+    let ticks: u64 = f.get(11).and_then(|x| x.parse().ok()).unwrap_or(0) + f.get(12).and_then(|x| x.parse().ok()).unwrap_or(0);
+    ticks * 10
+}
+
 pub fn start() {
     // under Miri a detached thread is reported as a leak, and wall-clock limits mean nothing
     if cfg!(miri) {
@@ -27,14 +38,32 @@ pub fn start() {
     }
     let limit: u64 = std::env::var("GH_HANG_SECS").ok().and_then(|s| s.parse().ok()).unwrap_or(90) * 1000;
     let _ = now_ms();
-    std::thread::spawn(move || loop {
-        std::thread::sleep(Duration::from_millis(500));
-        let now = now_ms();
-        for s in 0..SLOTS {
-            let id = CUR[s].load(Ordering::Relaxed);
-            if id >= 0 && now.saturating_sub(BEAT[s].load(Ordering::Relaxed)) > limit {
-                eprintln!("HANG history={id}: one operation has been running for more than {} s", limit / 1000);
-                std::process::exit(98);
+    // An operation that never returns spins: besides being old by the wall clock, the process must have burnt CPU while
+    // the beat stood still — a machine that is merely overloaded (the process is not scheduled) does not count as a hang.
+    let cpu_limit = limit / 3;
+    std::thread::spawn(move || {
+        let mut last_beat = [0u64; SLOTS];
+        let mut stuck_cpu = [0u64; SLOTS];
+        let mut last_cpu = cpu_ms();
+        loop {
+            std::thread::sleep(Duration::from_millis(500));
+            let now = now_ms();
+            let cpu = cpu_ms();
+            let dcpu = cpu.saturating_sub(last_cpu);
+            last_cpu = cpu;
+            for s in 0..SLOTS {
+                let id = CUR[s].load(Ordering::Relaxed);
+                let b = BEAT[s].load(Ordering::Relaxed);
+                if id < 0 || b != last_beat[s] {
+                    last_beat[s] = b;
+                    stuck_cpu[s] = 0;
+                    continue;
+                }
+                stuck_cpu[s] += dcpu;
+                if now.saturating_sub(b) > limit && (stuck_cpu[s] > cpu_limit || cpu == 0) {
+                    eprintln!("HANG history={id}: one operation has been running for more than {} s", limit / 1000);
+                    std::process::exit(98);
+                }
             }
         }
     });
